@@ -16,8 +16,7 @@
 (* outcome of every consistent one:                                        *)
 (*   coherence   : hb irreflexive, hb;eco irreflexive                      *)
 (*   atomicity   : an RMW reads its immediate mo-predecessor               *)
-(*   SC          : psc acyclic (SC fences; SC accesses are excluded from   *)
-(*                 the batches this module is used for)                    *)
+(*   SC          : psc = psc_base \cup psc_F acyclic (SC accesses and fences)*)
 (*   no-thin-air : sb \cup rf acyclic                                       *)
 (***************************************************************************)
 EXTENDS Naturals, Sequences, FiniteSets, TLC, Json
@@ -98,11 +97,20 @@ Consistent ==
       hb == TC(sb \cup sw)
       hbq == hb \cup Id(EE)
       Fsc == {e \in Fc : Ord(p, e) = "sc"}
+      Esc == {e \in Ev(p) : Op(p, e) # "fence" /\ Ord(p, e) = "sc"}
       hbecohb == CompC(CompC(hb, eco), hb)
       pscF == {e \in hb \cup hbecohb : e[1] \in Fsc /\ e[2] \in Fsc}
+      \* psc_base of RC11: ([Esc] \cup [Fsc];hb?) ; scb ; ([Esc] \cup hb?;[Fsc])
+      sbp == {ab \in sb : IsInit(ab[1]) \/ ab[1][1] = ab[2][1]}                       \* program order (and init first)
+      sbneq == {e \in sbp : Loc(p, e[1]) # Loc(p, e[2]) \/ Loc(p, e[1]) = "_"}
+      hbloc == {e \in hb : Loc(p, e[1]) = Loc(p, e[2]) /\ Loc(p, e[1]) # "_"}
+      scb == sbp \cup CompC(CompC(sbneq, hb), sbneq) \cup hbloc \cup moR \cup rb
+      pscL == Id(Esc) \cup CompC(Id(Fsc), hbq)
+      pscR == Id(Esc) \cup CompC(hbq, Id(Fsc))
+      pscbase == IF Esc = {} /\ Fsc = {} THEN {} ELSE CompC(CompC(pscL, scb), pscR)
   IN /\ Irrefl(hb) /\ Irrefl(CompC(hb, eco))
      /\ Irrefl(TC(sb \cup rfR))
-     /\ Irrefl(TC(pscF))
+     /\ Irrefl(TC(pscbase \cup pscF))
 
 RegsOf(t) == LET rs == {e \in Reads(p) : e[1] = t} IN
              [k \in 1..Cardinality(rs) |-> LET e == CHOOSE e \in rs : Cardinality({d \in rs : d[2] <= e[2]}) = k IN Val(p, rf[e])]
